@@ -194,15 +194,19 @@ CLAIMED = {
         technique="Lean 4 theorems: wait-group accounting invariant by induction over every history of spawns, exits (return / error / "
                   "cancellation) and polls of the term() waiter, reusing C08's register-first no-lost-wake-up result; decision functions for "
                   "'who learns of a shutdown and by when' and 'what the API of a closed socket answers' stated outright; registry invariant for "
-                  "names; tie: translator re-extracts 15 structural facts (theorem `source_shape`), stack scenarios running random API histories "
-                  "with close()/term() injected anywhere on real sockets and checking return times, promptness of errors, re-bindability and "
-                  "the runtime's alive-task count",
+                  "names; transition system of callers parked in a load balancer (arrive / Stop) with the invariant 'flag up => nobody "
+                  "parked' for every history; tie: translator re-extracts 23 structural facts (theorems `source_shape`, "
+                  "`parking_sites_as_proved`), stack scenarios running random API histories with close()/term() injected anywhere on real "
+                  "sockets - including crowds of 3..6 tasks parked in one call and sends that wait without limit - and checking return "
+                  "times, promptness of errors, re-bindability and the runtime's alive-task count",
         text="Proof over the models: the wait group counts exactly the living actors whatever the order and manner of their exits; the waiter "
              "in term() is released only at a poll where nothing is alive, and is released (one poll suffices) once everything has stopped; a "
              "session still handshaking and a connecter still retrying learn of the shutdown within 100 ms / one retry interval even when they "
              "subscribed to the bus too late (the earlier bus-only shape never learns); once close()/term() has begun every API call returns at "
              "once with an error (Ok for a repeated close) - the earlier unanswered mailbox hangs; after a socket's loop has ended none of its "
-             "inproc names is registered. 10 theorems. Partial: the interleavings of the actor tasks, timer accuracy and OS port release are "
+             "inproc names is registered; however many tasks are parked in send() on a PUSH, DEALER or REQ socket without a peer, whenever they "
+             "arrived, nobody is parked any more once the pattern has processed Stop, and nobody is lost on the way (the notify_one shape "
+             "strands the third sender, the earlier REQ shape strands everyone: stated as counterexample theorems). 15 theorems. Partial: the interleavings of the actor tasks, timer accuracy and OS port release are "
              "covered by the sampled lifecycle histories, not by the theorems; term()'s 10 s straggler allowance still exists (the scenarios "
              "flag any run in which it is needed).",
         note=COMMON_NOTE + "The runtime's alive-task counter is the observation of 'nothing left running'.",
@@ -287,20 +291,30 @@ CLAIMED = {
         note=COMMON_NOTE + "Engine time is scripted via a cfg(rzmq_verif) accessor; the session actor's interval timer is assumed to tick at least every HEARTBEAT_IVL.",
         design="§8 C19"),
     "C20": dict(
-        engine="M10 Pool + M2 Engine",
+        engine="M10 Pool + M12 Tracker + M2 Engine",
         technique="Lean 4 theorems: equivalence of everything the shared engine decides for any two segmentations/timings of the same byte "
-                  "stream (corollary of C04), and invariants of the send-buffer pool by induction over every history of acquire / lease / "
-                  "hand-over / drop / release; tie: lock-step correspondence on the real SendBufferPool, and the C01/C02/C14 workload "
-                  "generators replayed with IO_URING_SESSION_ENABLED against three configurations of the backend, whose canonical results must "
-                  "equal the model's predictions (= the Tokio backend's), plus churn, fan-in (up to 32 connections, payload integrity, senders closing right after their last send) scenarios",
+                  "stream (corollary of C04); invariants of the send-buffer pool by induction over every history of acquire / lease / "
+                  "hand-over / drop / release; invariant of the worker's table of in-kernel operations by induction over every history "
+                  "of submit / CloseFd completion / first and final completions (attribution, buffer ownership, unique user_data, no "
+                  "leak); tie: translator flags for the table's close/lookup/re-insert shapes, lock-step correspondence on the real "
+                  "SendBufferPool and InternalOpTracker, and the C01/C02/C14 workload generators replayed with IO_URING_SESSION_ENABLED "
+                  "against three configurations of the backend, whose canonical results must equal the model's predictions (= the Tokio "
+                  "backend's), plus churn, fan-in (up to 32 connections, payload integrity, senders closing right after their last "
+                  "send) and peer-sees-close scenarios",
         text="Proof over the models: for the same peer bytes, however the two backends cut and time their reads, the engine ends in the same "
              "state and emits the same handshake outcome, deliveries in order and errors; the pool's bookkeeping stays consistent under every "
              "history (including double and unknown releases), never hands out a buffer that is in use, gets every buffer back once all are "
-             "released, a lease dropped before hand-over returns its buffer by itself, oversize data never takes a buffer. 7 theorems. KNOWN "
-             "FINDING C20:uring-no-timers (no handshake deadline, no heartbeat tick in the io_uring handler), replayed on every run; two "
-             "defects the scenarios found were repaired (a 9th simultaneous connection was never attached; buffers of in-flight sends were "
-             "freed at close and freed memory went out on the wire). Partial: the receive ring, the worker's SQE/CQE state machine, descriptor handling and the spill-over "
-             "queue are covered by the equivalence scenarios only.",
+             "released, a lease dropped before hand-over returns its buffer by itself, oversize data never takes a buffer; in the operation "
+             "table every completion is processed with the entry of the operation it was submitted as, the buffers of every operation the "
+             "kernel holds stay owned, no two kernel-held operations share a user_data, the table is empty when the kernel holds nothing "
+             "and a closed descriptor is no longer named - whatever is submitted, closed and completed in whatever order; four "
+             "counterexample theorems state what the earlier shapes of the table did. 19 theorems. KNOWN FINDINGS "
+             "C20:uring-no-timers (no handshake deadline, no heartbeat tick in the io_uring handler; replayed on every run) and "
+             "C20:uring-rare-connection-stall (about one fresh connection in 1500 never carries data; symptom-only, a matching case is "
+             "attributed to it only after three clean replays). Five defects the machinery found were repaired (9th connection never "
+             "attached; in-flight send buffers freed at close and freed memory transmitted; completions attributed to the wrong "
+             "operation after a close; zero-copy notifications shadowed; two zero-copy sends sharing a user_data). Partial: the receive "
+             "ring, the worker's SQE submission and wake-up logic, and the spill-over queue are covered by the equivalence scenarios only.",
         note=COMMON_NOTE + "io_uring is a per-process singleton: each backend configuration is a separate harness process.",
         design="§8 C20"),
 }
